@@ -5,7 +5,9 @@ Tie (this file): the real writer is single-stepped by the LD_PRELOAD interposer 
 every file-system operation); between any two operations a long-lived DigitalRFReader and a
 freshly constructed one query the LIVE tree (the writer keeps its descriptors open); results are
 compared with the finalized files (raw h5py), with the model's state after the same prefix, with
-the written values, and with the previous step (visibility only grows).  Thorough tier adds a
+the written values, and with the previous step (visibility only grows).  The same is done with
+readers over TWO top-level directories of one channel (finished archive + live recording, both
+orders) and with a second channel being set up next to a complete one.  Thorough tier adds a
 free-running writer polled by a reader (exploration supporting the model; labelled so)."""
 import os
 import shutil
@@ -218,6 +220,140 @@ def second_channel(res, sp0):
     shutil.rmtree(work, True)
 
 
+def shifted(samples, d):
+    return P.Samples(samples.g + d, samples.v)
+
+
+def two_dirs_pass(res, inp, kind, reader, tops, sp_a, exp, allw, prev):
+    """one pass of one reader over the two top-level directories: bounds, then the whole span.
+    Returns (reader or None, samples seen or None)."""
+    import digital_rf
+    try:
+        what = "constructor"
+        r = reader or digital_rf.DigitalRFReader(list(tops))
+        what = "get_channels"
+        chans = r.get_channels()
+        what = "get_bounds"
+        b = r.get_bounds(P.CH)
+        what = "read"
+        _r, seen = P.reader_pass(None, sp_a, reader=r)
+    except Exception as e:  # noqa
+        res.violation("multidir-reader-fails-during-recording",
+                      "a reader over two top-level directories of the same channel (a finished archive and a directory "
+                      "the recording is running into) fails in %s (%s reader)" % (what, kind), inp,
+                      "no failure; bounds and samples of the union of the finalized files", repr(e)[:300])
+        return None, None
+    if P.CH not in chans:
+        res.violation("multidir-channel-not-listed", "the channel is not listed by a reader over two top-level "
+                      "directories (%s reader)" % kind, inp, [P.CH], chans)
+    if len(exp):
+        eb = (sp_a["start"] + int(exp.g[0]), sp_a["start"] + int(exp.g[-1]))
+        if tuple(int(x) if x is not None else None for x in b) != eb:
+            res.violation("multidir-bounds-not-union", "get_bounds over two top-level directories is not the bounds of "
+                          "the union of the finalized files (%s reader)" % kind, inp, list(eb), [str(x) for x in b])
+    if not seen.subset_of(allw) or seen.has_dup():
+        res.violation("multidir-reader-sees-unwritten", "a reader over two top-level directories returned a value that "
+                      "was not written at that index (%s reader)" % kind, inp, "subset of written samples", seen.brief())
+    if not (seen == exp):
+        res.violation("multidir-reader-not-exactly-finalized", "a reader over two top-level directories does not see "
+                      "exactly the union of the files finalized so far (%s reader)" % kind, inp, exp.brief(), seen.brief())
+    if prev is not None and not prev.subset_of(seen):
+        res.violation("multidir-visibility-shrinks", "samples a reader over two top-level directories could read earlier "
+                      "are no longer readable or changed (%s reader)" % kind, inp, prev.brief(), seen.brief())
+    return r, seen
+
+
+def two_dirs(res, sp_a):
+    """an archive directory holding a finished recording of the channel, and a LIVE writer recording the same
+    channel name under a second top-level directory (10 s later); readers over both directories, in both orders,
+    fresh and long-lived, query before every file-system operation of the live writer: from before the channel
+    directory holds anything, through 'only drf_properties.h5', to its finalized files and after close"""
+    work = common.scratch_dir("c09two-")
+    archive, live = os.path.join(work, "archive"), os.path.join(work, "live")
+    outc, rc, err = P.run_writer(sp_a, archive)
+    if rc != 0 or any(not o["ok"] for o in outc):
+        res.disagree("archive recording did not complete", sp_a["name"], None, outc)
+        return
+    arch = P.written(sp_a)
+    fin_a, bad = finalized_now(archive, sp_a)
+    if bad or not (fin_a == arch):
+        res.disagree("archive recording not whole", sp_a["name"], arch.brief(), fin_a.brief())
+        return
+    sp_l = P.spec([[0, 120], [120, 130]], srn=sp_a["srn"], srd=sp_a["srd"], name="live-second-directory-120+130")
+    sp_l["start"] = sp_a["start"] + 10 * sp_a["srn"] // sp_a["srd"]
+    delta = sp_l["start"] - sp_a["start"]
+    allw = arch.union(shifted(P.written(sp_l), delta))
+    fo, fi = os.path.join(work, "out.fifo"), os.path.join(work, "in.fifo")
+    os.mkfifo(fo)
+    os.mkfifo(fi)
+    proc = P.run_writer(sp_l, live, step=(fo, fi), popen=True)
+    rd = open(fo, "r")
+    wr = open(fi, "w")
+    orders = {"archive-first": (archive, live), "live-first": (live, archive)}
+    long_lived = {k: None for k in orders}
+    prev = {(k, kind): None for k in orders for kind in ("fresh", "long-lived")}
+    props = os.path.join(live, P.CH, "drf_properties.h5")
+    n = 0
+    phases = set()
+
+    def poll(n, label):
+        fin_l, bad = finalized_now(live, sp_l)
+        has_props = os.path.exists(props)
+        phase = ("no-properties-file" if not has_props else "only-properties-file" if not len(fin_l)
+                 else "finalized-files")
+        phases.add(phase)
+        res.count("two_dirs_phase_" + phase)
+        exp = arch.union(shifted(fin_l, delta)) if has_props else arch
+        for oname, tops in orders.items():
+            inp = {"recording": sp_a["name"], "spec": sp_a, "live_spec": sp_l, "live_before_op": n, "order": oname,
+                   "live_state": phase, "live_files": P.tree_files(live), "label": "two-dirs"}
+            if label:
+                inp["after"] = label
+            for f, e in bad:
+                res.violation("final-data-file-unreadable", "a data file under a final name cannot be read while the "
+                              "writer runs", inp, "whole file", {"file": f, "error": e})
+            _r, seen = two_dirs_pass(res, inp, "fresh", None, tops, sp_a, exp, allw, prev[(oname, "fresh")])
+            prev[(oname, "fresh")] = seen if seen is not None else prev[(oname, "fresh")]
+            res.count("reader_passes")
+            if has_props:
+                # a long-lived reader keeps the directories it found the channel in at construction: construct it
+                # once the live directory holds the channel (recording just started), keep it from then on
+                r, seen = two_dirs_pass(res, inp, "long-lived", long_lived[oname], tops, sp_a, exp, allw,
+                                        prev[(oname, "long-lived")])
+                long_lived[oname] = r
+                prev[(oname, "long-lived")] = seen if seen is not None else prev[(oname, "long-lived")]
+                res.count("reader_passes")
+            res.case(("two-dirs", sp_a["name"], oname, n, label), nontrivial=True)
+
+    try:
+        while True:
+            ln = rd.readline()
+            if not ln:
+                break
+            n = int(ln)
+            poll(n, None)
+            wr.write("x")
+            wr.flush()
+    finally:
+        try:
+            wr.close()
+        except Exception:  # noqa
+            pass
+        rd.close()
+        proc.communicate(timeout=60)
+    poll(n + 1, "close")
+    for key, seen in prev.items():
+        if seen is None or not (seen == allw):
+            res.violation("multidir-not-all-visible-after-close", "after the live writer is closed a reader over both "
+                          "directories does not see everything (%s, %s)" % key,
+                          {"recording": sp_a["name"], "spec": sp_a, "live_spec": sp_l, "live_before_op": n + 1,
+                           "order": key[0], "label": "two-dirs"}, allw.brief(), seen.brief() if seen is not None else None)
+    for ph in ("no-properties-file", "only-properties-file", "finalized-files"):
+        if ph not in phases:
+            res.disagree("two-directory scenario never observed the live directory in state", ph, "observed", sorted(phases))
+    shutil.rmtree(work, True)
+
+
 def free_running(res, seconds):
     """exploration: a writer running freely (many small writes, short sleeps) polled by a reader"""
     import digital_rf
@@ -273,7 +409,11 @@ def run(res):
                 "distinct and non-trivial; each result is compared with raw h5py of the final-named files, the model's "
                 "state after the same prefix, the written values and the previous step; a second channel's writer is held "
                 "before every operation of its set-up while fresh and long-lived readers are constructed on / query the "
-                "top-level directory holding a complete first channel; thorough adds recordings; a free-running writer "
+                "top-level directory holding a complete first channel; two top-level directories of the SAME channel (a "
+                "finished archive and a directory a single-stepped live writer records into, 10 s later): fresh and "
+                "long-lived readers over both, in both orders, before every operation of the live writer (no properties "
+                "file yet / only drf_properties.h5 / finalized files / closed) must not fail, must return exactly the "
+                "union of the finalized files and its bounds; thorough adds recordings; a free-running writer "
                 "polled by a reader is exploration")
     for sp in recordings(res.tier):
         b = P.baseline(res, sp)
@@ -284,6 +424,7 @@ def run(res):
                     "props_variant": {0: "Direct", 1: "Staged", None: "none"}[b.vp]})
         shutil.rmtree(b.work, True)
     second_channel(res, recordings(res.tier)[0])
+    two_dirs(res, recordings(res.tier)[0])
     free_running(res, 4 if res.tier == "quick" else 20)
     res.assumptions += [
         "a reader probe (os.access + h5py.File + dataset reads of one file) is atomic with respect to the writer's "
@@ -312,6 +453,27 @@ def replay(res, rp):
         try:
             r = digital_rf.DigitalRFReader(top)
             print("reader ok, channels", r.get_channels())
+        except Exception as e:  # noqa
+            print("reader raises", repr(e))
+        print("expected:", rp.get("expected"), "| observed then:", rp.get("observed"))
+        return 0
+    if sp and inp.get("label") == "two-dirs":
+        import digital_rf
+        work = common.scratch_dir("c09replay-")
+        archive, live = os.path.join(work, "archive"), os.path.join(work, "live")
+        P.run_writer(sp, archive)
+        P.run_writer(inp["live_spec"], live, kill_at=inp["live_before_op"])
+        tops = [archive, live] if inp.get("order") != "live-first" else [live, archive]
+        print("archive: finished recording of %s; live directory with its writer stopped before its operation %d:"
+              % (P.CH, inp["live_before_op"]))
+        for f in P.tree_files(live):
+            print("  ", f)
+        print("reader over", [os.path.basename(t) for t in tops])
+        try:
+            r = digital_rf.DigitalRFReader(tops)
+            print("get_bounds ->", r.get_bounds(P.CH))
+            _r, seen = P.reader_pass(None, sp, reader=r)
+            print("reader sees", seen.brief())
         except Exception as e:  # noqa
             print("reader raises", repr(e))
         print("expected:", rp.get("expected"), "| observed then:", rp.get("observed"))
